@@ -6,4 +6,5 @@ pub mod refdec;
 #[macro_use]
 pub mod runner;
 pub mod src;
+pub mod view;
 pub mod props;
